@@ -298,6 +298,16 @@ func c08Inputs(seed int64, thorough bool) (files []c08Input, profiles []c08Input
 			files = append(files, c08Input{"real:" + rf.Name, rf.Bytes, rf.Format, nil})
 		}
 	}
+	// PNGs whose last needed structure (the IDAT chunk header) ends a little below or above 1, 8 and
+	// 16 MiB: whatever budget a loader keeps, it is spent differently by large and by small deliveries
+	for _, end := range []int{1<<20 - 1000, 8<<20 - 1000, 8<<20 - 1, 16<<20 - 1000} {
+		s := pngSpecFor(640, 480, 2, 8, 0, rng)
+		// 8 signature + 25 IHDR + (12 + L) tEXt + 8 IDAT header = end
+		l := end - (8 + 25 + 12 + 8)
+		s.Pre = []imggen.PNGChunk{{Type: "tEXt", Data: append([]byte("k\x00"), rng.Bytes(l-2)...)}}
+		b, _ := s.Build()
+		files = append(files, c08Input{fmt.Sprintf("png whose IDAT header ends at offset %d", end), b, "PNG", nil})
+	}
 	// ICC profiles
 	np := 1500
 	if thorough {
@@ -407,6 +417,9 @@ func runC08(r *core.Run) {
 				if len(f.bytes) > 60000 && (sc == "1" || sc == "2" || sc == "3") && i%4 != 0 {
 					continue
 				}
+				if len(f.bytes) > 1<<20 && (sc == "1" || sc == "2" || sc == "3" || sc == "1+data+eof" || sc == "zero-nil") {
+					continue // the multi-MiB inputs go through the schedules of 7 bytes and more
+				}
 				seed := seeds[(i+si)%len(seeds)] + uint64(i)
 				kind, msg, short := c08CheckLoader(f.bytes, loader, sc, seed)
 				n++
@@ -481,6 +494,33 @@ func runC08(r *core.Run) {
 			r.AddEvals(int64(len(fronts)))
 		})
 		r.Obs("profile_streams_read_by_successive_calls", len(seqs))
+	}
+	// a caller's own buffer, reused: profile A is read from a *bytes.Buffer, the buffer is reset and
+	// filled with profile B, B is read, and only then A is asked for its description - which must be
+	// what it is when A is read from a bytes.Reader that nobody touches afterwards
+	{
+		np := 400
+		if r.Thorough() {
+			np = len(profiles) - 1
+		}
+		if np > len(profiles)-1 {
+			np = len(profiles) - 1
+		}
+		var n int64
+		for i := 0; i < np; i++ {
+			a, b := profiles[i], profiles[i+1]
+			bad, applicable, msg := c08ICCKept(a.bytes, b.bytes, a.accept)
+			if !applicable {
+				continue
+			}
+			n++
+			if bad {
+				r.Violate("icc", "icc/kept-differs/bytes.Buffer-reused", a.name+": "+msg, c08Case{Name: a.name, Kind: "icc-kept", Accept: a.accept, Schedule: "bytes.Buffer-reused", File: base64.StdEncoding.EncodeToString(a.bytes), File2: base64.StdEncoding.EncodeToString(b.bytes)})
+				break
+			}
+		}
+		r.AddEvals(n)
+		r.Obs("profiles_described_after_their_buffer_was_reused", n)
 	}
 	// what a caller keeps from one load is looked at again after the next load of the same kind, per
 	// delivery schedule, on one goroutine (scratch memory handed back to a pool is handed out again to
@@ -579,6 +619,37 @@ func c08CheckICCSeq(data []byte, front string, seed uint64) (kind, msg string) {
 	return "", "ok"
 }
 
+// c08ICCKept: profile a read from a *bytes.Buffer that is then reset and refilled (with b, then
+// with filler); a's description afterwards against a's description read from a bytes.Reader.
+func c08ICCKept(a, b []byte, accept []string) (bad, applicable bool, msg string) {
+	base := iccSummarise(bytes.NewReader(a))
+	if !base.OK || !base.DescOK {
+		return false, false, "baseline has no description"
+	}
+	variants := map[string]bool{base.Desc: true}
+	for _, acc := range accept {
+		variants[acc] = true
+	}
+	for k := 0; k < 5; k++ {
+		variants[iccSummarise(bytes.NewReader(a)).Desc] = true
+	}
+	buf := bytes.NewBuffer(append(make([]byte, 0, len(a)+len(b)+64), a...))
+	pa, err, pan := readProfile(buf)
+	if pan != nil || err != nil || pa == nil {
+		return false, false, "not readable from a bytes.Buffer (reported by the single-read comparison)"
+	}
+	buf.Reset()
+	buf.Write(b)
+	_, _, _ = readProfile(buf)
+	buf.Reset()
+	buf.Write(bytes.Repeat([]byte{0xA5}, len(a)+32))
+	d, derr, dpan := description(pa)
+	if dpan != nil || derr != nil || !variants[d] {
+		return true, true, fmt.Sprintf("read from a *bytes.Buffer that the caller then reset and refilled, Description() gives %q (err %v, panic %v); read from a bytes.Reader it gives %q", d, derr, dpan, base.Desc)
+	}
+	return false, true, "ok"
+}
+
 var c08KeptScheds = []string{"all", "1", "7", "4096", "random17", "data+eof", "4096+data+eof"}
 
 // c08KeptCheck loads a, then b twice, under each schedule, and compares what the caller still
@@ -608,6 +679,14 @@ func replayC08(stage string, raw json.RawMessage) (bool, string, error) {
 	b, err := base64.StdEncoding.DecodeString(cs.File)
 	if err != nil {
 		return false, "", err
+	}
+	if cs.Kind == "icc-kept" {
+		b2, err := base64.StdEncoding.DecodeString(cs.File2)
+		if err != nil {
+			return false, "", err
+		}
+		bad, _, m := c08ICCKept(b, b2, cs.Accept)
+		return bad, m, nil
 	}
 	if cs.Kind == "icc-seq" {
 		k, m := c08CheckICCSeq(b, cs.Schedule, cs.SchedSeed)
